@@ -906,7 +906,7 @@ vbi_xds_demux_feed		(vbi_xds_demux *	xd,
 			i += 0x10 - 0x40;
 
 		if (xds_class > VBI_XDS_CLASS_MISC
-		    || i > N_ELEMENTS (xd->subpacket[0])) {
+		    || i >= N_ELEMENTS (xd->subpacket[0])) {
 			log ("XDS ignore packet 0x%x/0x%02x, "
 			     "unknown class or subclass\n",
 			     xds_class, xds_subclass);
